@@ -1,4 +1,5 @@
 import RisorModel.C17.Model
+import RisorModel.C17.FragWF
 import RisorModel.Generated.C17
 /-!
 C17 ties: the JSON schema regenerated from compiler/store.go on this run against the schema
@@ -62,5 +63,86 @@ theorem codeNameWrites_tie :
       [("newChild", "ident", "( $name != \"\" )"), ("New", "lit:\"__main__\"", "absent"),
        ("codeFromState", "sel:.Name", "( ( $name != \"\" ) && ( $name != \"__main__\" ) )")]
     ∧ Risor.Generated.C17.codeNameAssigns = [] := by decide
+
+/-- **The fields of `Code` the file carries** (sorted): `parent` as `parent_id`, `symbols` as
+    `symbol_table_id`, the rest under their own json names. -/
+def serialisedCodeFields : List String :=
+  ["constants", "functionID", "id", "instructions", "name", "names", "parent", "source", "symbols"]
+
+/-- **The fields of `Code` the file does not carry** (reviewed list, in source order):
+    `isNamed` is recomputed from the name on reload, `children` are rebuilt from the parent ids
+    (and the code list is written in `Flatten` order), `filename` is dropped, `loops` and
+    `pipeActive` are used during compilation only. -/
+def notSerialisedCodeFields : List String := ["isNamed", "children", "filename", "loops", "pipeActive"]
+
+/-- every field of `type Code struct` in compiler/code.go, in source order: a field added,
+    removed or renamed breaks this tie and has to be placed in one of the two lists above -/
+theorem code_struct_fields_tie :
+    Risor.Generated.C17.codeStructFields =
+      ["id", "name", "isNamed", "parent", "children", "symbols", "instructions", "constants",
+       "names", "source", "functionID", "filename", "loops", "pipeActive"] := by decide
+
+/-- the fields of `Code` that stateFromCode does not read are exactly the reviewed list; the ones
+    it reads (apart from the call of `Flatten`) are exactly the serialised ones; and `Flatten`
+    reads `children` only -/
+theorem code_fields_not_serialised_tie :
+    Risor.Generated.C17.codeStructFields.filter
+        (fun f => !Risor.Generated.C17.stateFromCodeReads.contains f) = notSerialisedCodeFields
+    ∧ Risor.Generated.C17.stateFromCodeReads.filter (· ≠ "Flatten()") = serialisedCodeFields
+    ∧ Risor.Generated.C17.flattenReads = ["children"] := by decide
+
+/-- the two lists partition the struct: together they are all fourteen fields, none twice -/
+theorem code_fields_partition_tie :
+    (∀ f ∈ Risor.Generated.C17.codeStructFields,
+        (f ∈ serialisedCodeFields) ≠ (f ∈ notSerialisedCodeFields))
+    ∧ (serialisedCodeFields ++ notSerialisedCodeFields).length =
+        Risor.Generated.C17.codeStructFields.length := by decide
+
+/-- what an accessor of `*Code` reads, from the generated table; an unknown method reads the
+    pseudo field `?M` so that it cannot pass a tie unnoticed -/
+def accessorReads (m : String) : List String :=
+  (Risor.Generated.C17.codeAccessors.lookup m).getD ["?" ++ m]
+
+/-- the same with the `M()` entries (a method of `*Code` used by the accessor) resolved one
+    level through the table; the entry of the method itself is dropped (`Flatten` recursing on
+    the children), any other entry that is not in the table (`f(recv)`, a second level) is kept
+    as it is -/
+def accessorReadsResolved (m : String) : List String :=
+  (accessorReads m).flatMap fun e =>
+    match Risor.Generated.C17.codeAccessors.find? (fun p => p.1 ++ "()" == e) with
+    | some (m', reads) => if m' = m then [] else reads
+    | none => [e]
+
+/-- **The fields of `Code` the VM can read**: the union, de-duplicated in order of first
+    occurrence, of what the accessors in `vmCodeMethods` read (package vm has no other access:
+    the fields are unexported). -/
+def vmReadFields : List String :=
+  (Risor.Generated.C17.vmCodeMethods.flatMap accessorReadsResolved).eraseDups
+
+/-- **What execution reads of a code object is in the file, or recomputed.**  Package vm uses
+    eleven methods of `*compiler.Code` (`Root` and `IsNamed` among them; not `Filename`, not
+    `Flatten`, not `Parent`, not `MarshalJSON`); through them it reads `constants`, `symbols`,
+    `instructions`, `isNamed`, `names` and `parent` and nothing else.  Five of these are
+    serialised.  The only not-serialised field the VM reads is `isNamed`, and that one is covered
+    by the model's recomputation (`mkNode`, `reload_isNamed_from_name`).  `children` is not read
+    by the VM at all (only by `Flatten`, i.e. by the serialiser: `stateFromCode_code_order`,
+    `marshal_code_order`), and `filename` is neither serialised nor read during execution: vm
+    never calls `Filename()`.  The first conjunct is the weaker statement that would also allow
+    `children` and `filename`; the others say exactly what is read today. -/
+theorem vm_reads_are_serialised_tie :
+    (∀ f ∈ vmReadFields, f ∈ serialisedCodeFields ++ ["isNamed", "children", "filename"])
+    ∧ Risor.Generated.C17.vmCodeMethods =
+        ["Constant", "ConstantsCount", "Global", "GlobalNames", "Instruction", "InstructionCount",
+         "IsNamed", "LocalsCount", "Name", "NameCount", "Root"]
+    ∧ vmReadFields = ["constants", "symbols", "instructions", "isNamed", "names", "parent"]
+    ∧ vmReadFields.filter (fun f => notSerialisedCodeFields.contains f) = ["isNamed"]
+    ∧ "Filename" ∉ Risor.Generated.C17.vmCodeMethods
+    ∧ "Flatten" ∉ Risor.Generated.C17.vmCodeMethods := by decide
+
+/-- **Opcode numbers of the fragment embedding.**  Every opcode number `FragWF.fragWords` /
+    `FragWF.funWords` write (`FragWF.opNums`, the reviewed table the two functions were written
+    from) is the number op/op.go gives that opcode on this run: renumbering an opcode breaks this
+    lemma (and the field-by-field comparison of harness/c17frag.go). -/
+theorem frag_opcodes_tie : ∀ e ∈ FragWF.opNums, e ∈ Risor.Generated.C17.opcodes := by decide
 
 end Risor.C17
